@@ -43,18 +43,6 @@ Proof. unfold both_modes. intros H m. apply andb_prop in H. destruct H as (A & B
 Definition elem_bound (fmt : N) : N :=
   match fmt with 0 => 2 ^ 32 | 1 => 2 ^ 24 | 2 | 3 | 4 | 5 => 65536 | 6 | 7 | 8 | 9 => 256 | _ => 1 end.
 
-Definition dc_sweep (n fmt : N) : bool := all_below n (fun v => both_modes (fun m => decode_color_m m v fmt) (decode_color v fmt)).
-Lemma sweep_dc2 : dc_sweep 65536 2 = true. Proof. vm_compute. reflexivity. Qed.
-Lemma sweep_dc3 : dc_sweep 65536 3 = true. Proof. vm_compute. reflexivity. Qed.
-Lemma sweep_dc4 : dc_sweep 65536 4 = true. Proof. vm_compute. reflexivity. Qed.
-Lemma sweep_dc5 : dc_sweep 65536 5 = true. Proof. vm_compute. reflexivity. Qed.
-Lemma sweep_dc6 : dc_sweep 256 6 = true. Proof. vm_compute. reflexivity. Qed.
-Lemma sweep_dc7 : dc_sweep 256 7 = true. Proof. vm_compute. reflexivity. Qed.
-Lemma sweep_dc8 : dc_sweep 256 8 = true. Proof. vm_compute. reflexivity. Qed.
-Lemma sweep_dc9 : dc_sweep 256 9 = true. Proof. vm_compute. reflexivity. Qed.
-Lemma dc_sweep_spec n fmt : dc_sweep n fmt = true -> forall m v, v < n -> decode_color_m m v fmt = Ok (decode_color v fmt).
-Proof. intros S m v Hv. exact (both_modes_spec _ _ (all_below_spec _ _ S v Hv) m). Qed.
-
 Lemma u8_band_ff x : u8 (band x 0xFF) = band x 0xFF.
 Proof. apply u8_small. change 0xFF with (N.ones 8). apply (band_ones_lt x 8). Qed.
 
@@ -67,6 +55,42 @@ Proof.
   unfold decode_color_m, fld32. rewrite !shr_m_ok by (unfold W32; lia). cbn [bind]. rewrite !u8_band_ff. reflexivity.
 Qed.
 
+(* the 16- and 8-bit formats, by argument (no value sweep): shifts by constants below 32, table indices below 32 by the
+   mask, products and left shifts of masked fields far below 2^32 *)
+Lemma c5_index x : index_m CONVERT_5_TO_8 (band x 0x1F) = Ok (c5 (band x 0x1F)).
+Proof.
+  unfold c5, tbl. apply index_m_ok. change 0x1F with (N.ones 5). pose proof (band_ones_lt x 5) as B. change (2 ^ 5) with 32 in B.
+  change (length CONVERT_5_TO_8) with 32%nat. lia.
+Qed.
+Ltac s32 := unfold W32; lia.
+Lemma decode_color_m_5551 m v : decode_color_m m v 2 = Ok (decode_color v 2).
+Proof.
+  unfold decode_color_m, fld32. do 3 (rewrite shr_m_ok by s32; cbn [bind]). rewrite !c5_index. cbn [bind]. reflexivity.
+Qed.
+Lemma decode_color_m_565 m v : decode_color_m m v 3 = Ok (decode_color v 3).
+Proof.
+  unfold decode_color_m, fld32. do 2 (rewrite shr_m_ok by s32; cbn [bind]). rewrite c5_index. cbn [bind].
+  rewrite mul_w_ok.
+  2:{ change 0x3F with (N.ones 6). pose proof (band_ones_lt (shr v 5) 6) as B. change (2 ^ 6) with 64 in B.
+      unfold maxw, W32. change (2 ^ 32) with 4294967296. lia. }
+  cbn [bind]. rewrite c5_index. cbn [bind]. reflexivity.
+Qed.
+Lemma shl4_nibble m x : shl_m W32 m (band x 0xF) 4 = Ok (shl (band x 0xF) 4).
+Proof.
+  apply shl_m_ok; [s32|]. change 0xF with (N.ones 4). pose proof (band_ones_lt x 4) as B. change (2 ^ 4) with 16 in *.
+  unfold W32. change (2 ^ 32) with 4294967296. lia.
+Qed.
+Lemma decode_color_m_4444 m v : decode_color_m m v 4 = Ok (decode_color v 4).
+Proof.
+  unfold decode_color_m, fld32. do 3 (rewrite shr_m_ok by s32; cbn [bind]). rewrite !shl4_nibble. cbn [bind]. reflexivity.
+Qed.
+Lemma decode_color_m_la8 m v : decode_color_m m v 5 = Ok (decode_color v 5).
+Proof. unfold decode_color_m, fld32. rewrite shr_m_ok by s32. cbn [bind]. reflexivity. Qed.
+Lemma decode_color_m_hilo8 m v : decode_color_m m v 6 = Ok (decode_color v 6).
+Proof. unfold decode_color_m. rewrite shr_m_ok by s32. cbn [bind]. reflexivity. Qed.
+Lemma decode_color_m_la4 m v : decode_color_m m v 9 = Ok (decode_color v 9).
+Proof. unfold decode_color_m. rewrite shr_m_ok by s32. cbn [bind]. reflexivity. Qed.
+
 Theorem decode_color_m_ok : forall m fmt v, v < elem_bound fmt -> decode_color_m m v fmt = Ok (decode_color v fmt).
 Proof.
   intros m fmt v Hv.
@@ -75,10 +99,8 @@ Proof.
   destruct C as [->|[->|[C|[C|[->|[->|C]]]]]].
   - apply decode_color_m_rgba8.
   - apply decode_color_m_rgb8.
-  - destruct C as [->|[->|[->| ->]]]; cbn [elem_bound] in Hv;
-      [apply (dc_sweep_spec _ _ sweep_dc2)|apply (dc_sweep_spec _ _ sweep_dc3)|apply (dc_sweep_spec _ _ sweep_dc4)|apply (dc_sweep_spec _ _ sweep_dc5)]; exact Hv.
-  - destruct C as [->|[->|[->| ->]]]; cbn [elem_bound] in Hv;
-      [apply (dc_sweep_spec _ _ sweep_dc6)|apply (dc_sweep_spec _ _ sweep_dc7)|apply (dc_sweep_spec _ _ sweep_dc8)|apply (dc_sweep_spec _ _ sweep_dc9)]; exact Hv.
+  - destruct C as [->|[->|[->| ->]]]; [apply decode_color_m_5551|apply decode_color_m_565|apply decode_color_m_4444|apply decode_color_m_la8].
+  - destruct C as [->|[->|[->| ->]]]; [apply decode_color_m_hilo8|reflexivity|reflexivity|apply decode_color_m_la4].
   - cbn [elem_bound] in Hv. assert (v = 0) by lia. subst. destruct m; reflexivity.
   - cbn [elem_bound] in Hv. assert (v = 0) by lia. subst. destruct m; reflexivity.
   - destruct fmt as [|p]; [lia|]. do 4 (destruct p as [p|p|]; try lia; try reflexivity).
@@ -204,10 +226,29 @@ Proof.
 Qed.
 
 (* ---------------- RGB5A3 ---------------- *)
-Lemma sweep_rgb5a3_m : all_below 65536 (fun v => both_modes (fun m => decode_rgb5a3_pixel_m m v) (decode_rgb5a3_pixel v)) = true.
-Proof. vm_compute. reflexivity. Qed.
+(* every u16 product of the decoder fits: the factors are masked fields (at most 8 bits) times at most 0x20 *)
+Lemma mul16_ok m c x n : n <= 8 -> c <= 0x20 -> mul_w W16 m c (band x (N.ones n)) = Ok (c * band x (N.ones n)).
+Proof.
+  intros Hn Hc. apply mul_w_ok. pose proof (band_ones_lt x n) as B. assert (2 ^ n <= 2 ^ 8) by (apply N.pow_le_mono_r; lia).
+  change (2 ^ 8) with 256 in *. unfold maxw, W16. change (2 ^ 16) with 65536.
+  assert (c * band x (N.ones n) <= 0x20 * 255) by (apply N.mul_le_mono; lia). lia.
+Qed.
+Ltac s16 := unfold W16; lia.
+Theorem decode_rgb5a3_pixel_m_all : forall m v, decode_rgb5a3_pixel_m m v = Ok (decode_rgb5a3_pixel v).
+Proof.
+  intros m v. unfold decode_rgb5a3_pixel_m, decode_rgb5a3_pixel, fld16. destruct (band v 0x8000 =? 0).
+  - change 0x7 with (N.ones 3). change 0xF with (N.ones 4).
+    rewrite shr_m_ok by s16. cbn [bind]. rewrite (mul16_ok m 0x20 _ 3) by lia. cbn [bind].
+    rewrite shr_m_ok by s16. cbn [bind]. rewrite (mul16_ok m 0x11 _ 4) by lia. cbn [bind].
+    rewrite shr_m_ok by s16. cbn [bind]. rewrite (mul16_ok m 0x11 _ 4) by lia. cbn [bind].
+    rewrite (mul16_ok m 0x11 _ 4) by lia. cbn [bind]. reflexivity.
+  - change 0xFF with (N.ones 8). change 0x1F with (N.ones 5).
+    rewrite shr_m_ok by s16. cbn [bind]. rewrite (mul16_ok m 0x8 _ 8) by lia. cbn [bind].
+    rewrite shr_m_ok by s16. cbn [bind]. rewrite (mul16_ok m 0x8 _ 5) by lia. cbn [bind].
+    rewrite (mul16_ok m 0x8 _ 5) by lia. cbn [bind]. reflexivity.
+Qed.
 Theorem decode_rgb5a3_pixel_m_ok : forall m v, v < 65536 -> decode_rgb5a3_pixel_m m v = Ok (decode_rgb5a3_pixel v).
-Proof. intros m v Hv. exact (both_modes_spec _ _ (all_below_spec _ _ sweep_rgb5a3_m v Hv) m). Qed.
+Proof. intros m v _. apply decode_rgb5a3_pixel_m_all. Qed.
 
 Lemma rgb5a3_loop_m_ok m : forall data pos, wfb data -> pos + lenN data < 2 ^ 64 -> rgb5a3_loop_m m pos data = Ok (rgb5a3_pixels data).
 Proof.
